@@ -111,7 +111,7 @@ def split_args(text):
     return out
 
 
-FOLLOW = ["x = 1\n", "print(f!(y), 2)\n" if False else "print(y, 2)\n", "if a:\n    b = $(ls)\n", "def g():\n    return 3\n", "$Z = 'q'\n", "z = [1,\n     2]\n", "w = '''m\nl'''\n", "h!(k, l)\n" if False else "q = p'/x'\n"]
+FOLLOW = ["g!(x, y z)\n", "r = h!(p)\nt = h!(q, r)\n", "x = 1\n", "print(f!(y), 2)\n" if False else "print(y, 2)\n", "if a:\n    b = $(ls)\n", "def g():\n    return 3\n", "$Z = 'q'\n", "z = [1,\n     2]\n", "w = '''m\nl'''\n", "h!(k, l)\n" if False else "q = p'/x'\n"]
 
 
 def worker_init():
@@ -194,9 +194,10 @@ def run_case(acc, case):
         for c in calls:
             tup = c.args[1] if len(c.args) > 1 else None
             obs.append([e.value if isinstance(e, ast.Constant) else ast.dump(e) for e in tup.elts] if isinstance(tup, ast.Tuple) else None)
-        if obs != case["expected"]:
+        if obs[: len(case["expected"])] != case["expected"]:  # (the statements that follow may hold macros of their own: check_follow's business)
             acc.violation("macro-arguments-not-verbatim", case, {"expected": case["expected"], "observed": obs})
             return
+        calls = calls[: len(case["expected"])]
         # the coordinates of an argument are those of its text
         lf = src.replace("\r\n", "\n").replace("\r", "\n")
         for c in calls:
@@ -286,6 +287,8 @@ def gen_call(rnd):
         inside = ",".join(args)
         if split_args(inside) != args:
             return None  # generator self-check failed: never judge the code under test with a doubtful expectation
+        if rnd.random() < 0.12 and not ws_arg and args[-1].strip():
+            inside += rnd.choice([",", ", ", ",  "])  # a trailing comma (blank text before the closing bracket) adds no argument
         macs.append(rnd.choice(["f", "obj.m", "g[0]", "h()"]) + "!(" + inside + ")")
         expected.append(args)
     shape = rnd.random()
